@@ -424,6 +424,16 @@ def run(ctx: Ctx) -> None:
                       "file system, and make the store path - and whether two paths overlap - depend on the symbolic links of the machine")
     _n_spl = _spl(ctx, "C11.R16")
     rep.floor("C11.R16", _n_spl, 1)
+    rep.rule("C11.R18", "circular calls are refused whatever the kind of edge: the visitors hand their own call stack to every inspection they start (calls and references by name)")
+    n18 = visitors_hand_over_stack(ctx, "C11.R18")
+    rep.floor("C11.R18", n18, 4)
+    from .common import no_dead_duplicate_dispatch
+    rep.rule("C11.R17", "the resolver handles every kind of object it dispatches on (module, function, class): no kind test of a dispatch is a copy of an earlier one whose branch "
+                        "always leaves")
+    n17 = no_dead_duplicate_dispatch(ctx, "C11.R17", ("dds._retrieve_objects", "dds.introspect", "dds._introspect_indirect"),
+                                     "a call written on the class itself (`Stage.run(n)`) resolves to nothing: the subtree disappears from both analyses - a cycle through a static method runs, "
+                                     "a path kept in a static method is not collected and overlapping paths are not reported before the run")
+    rep.floor("C11.R17", n17, 1)
     from . import storerules as _S11
     rep.rule("C11.R15", "as C08.R13: a path is made well-formed or refused when it is made - one spelling per path, and the path without segment ('/', a prefix of every "
                         "other path) is refused by DDSPathUtils.create, i.e. before anything runs")
@@ -806,3 +816,47 @@ def _stack_push(e: ast.AST) -> Optional[ast.Name]:
         if isinstance(r, ast.Name) and isinstance(l, ast.List) and len(l.elts) == 1 and isinstance(l.elts[0], ast.Name):
             return l.elts[0]
     return None
+
+
+def visitors_hand_over_stack(ctx: Ctx, rule: str) -> int:
+    """Every call that a visitor makes to an inspector's `inspect_call` hands over the call stack the visitor was given (the attribute its constructor binds to the
+    parameter of type List[CanonicalPath]): with an empty stack at a reference edge (`map(g, xs)`), a cycle that goes through it is never closed by the first pass."""
+    from ..flow import bind_arg
+    rep = ctx.report
+    prog = ctx.prog
+    n = 0
+    for q in ("dds.introspect.IntroVisitor", "dds._introspect_indirect.IntroVisitorIndirect"):
+        k = prog.cls(q)
+        if k is None or "__init__" not in k.methods:
+            continue
+        init = k.methods["__init__"]
+        ia = init.node.args
+        stack_params = [x.arg for x in ia.posonlyargs + ia.args + ia.kwonlyargs if x.annotation is not None and "CanonicalPath" in unparse(x.annotation, 100) and "List" in unparse(x.annotation, 100)]
+        stack_attrs = set()
+        for st in init.own_nodes():
+            if isinstance(st, (ast.Assign, ast.AnnAssign)) and isinstance(st.value, ast.Name) and st.value.id in stack_params:
+                t = st.targets[0] if isinstance(st, ast.Assign) else st.target
+                if isinstance(t, ast.Attribute):
+                    stack_attrs.add(t.attr)
+        if not stack_attrs:
+            continue
+        for m in k.methods.values():
+            for c in m.own_nodes():
+                if not (isinstance(c, ast.Call) and isinstance(c.func, ast.Attribute) and c.func.attr == "inspect_call"):
+                    continue
+                fs, _ = prog.callees(m, c, ctx._types)
+                for g in fs:
+                    ga = g.node.args
+                    cs = [x.arg for x in ga.posonlyargs + ga.args + ga.kwonlyargs if x.annotation is not None and "CanonicalPath" in unparse(x.annotation, 100) and "List" in unparse(x.annotation, 100)]
+                    if not cs:
+                        continue
+                    vals = bind_arg(g, c, cs[0])
+                    n += 1
+                    desc = f"{k.name}.{m.name}: the inspector is handed the visitor's call stack"
+                    if vals and all(any(isinstance(y, ast.Attribute) and y.attr in stack_attrs for y in ast.walk(v)) for v in vals):
+                        rep.ok(rule, m.qname, desc, m.loc(c))
+                    else:
+                        rep.bad(rule, m.qname, desc, m.loc(c), [f"{m.loc(c)}: `{cs[0]}` is given `{unparse(vals[0], 40) if vals else 'nothing'}` instead of self.{sorted(stack_attrs)[0]}",
+                                "a cycle with a reference edge (`def f(n): return sum(map(g, [n]))`, `def g(n): return f(n - 1)`) is not closed by the first pass: RecursionError instead of "
+                                "the coded CIRCULAR_CALL refusal"], stmt_key(c), what="a visitor starts the inspection of a referenced function with an empty call stack")
+    return n
